@@ -1,7 +1,7 @@
 (** C17 — radix strings: canonical output, exact parse, overflow always reported.
     Statements only; every statement is for ALL radixes 2..=36, ALL limb counts / precisions, ALL values and ALL
     strings (lists of byte values).  The model (Model/Radix.v) follows src/uint/encoding.rs loop for loop and, for the
-    encoder, the REPAIRED code (tools/fix_C17_1.diff, finding F25; [C17_format_original_refuted] is about the
+    encoder, the REPAIRED code (tools/fix_C17_1.diff, finding F30; [C17_format_original_refuted] is about the
     original test).  Everything is proved outright (no `_partial` theorem): parsing, the power-of-two formatter and
     the division formatter INCLUDING the large-divisor recursion for more than 32 limbs.  Reused: div2by1 /
     reciprocal correctness (C02: Proofs/DivP.v, RecipP.v) and the in-place Knuth division (Proofs/DivBoxedP.v). *)
@@ -67,7 +67,7 @@ Theorem C17_parse_invalid_iff : forall n r s, 2 <= r <= 36 ->
 Proof. exact uint_parse_errors. Qed.
 Print Assumptions C17_parse_invalid_iff.
 
-(** finding F26: a non-numeral can be reported as InputSize (the documentation promises InvalidDigit) *)
+(** finding F31: a non-numeral can be reported as InputSize (the documentation promises InvalidDigit) *)
 Theorem C17_parse_error_precedence_refuted :
   exists n r s, 2 <= r <= 36 /\ ~ well_formed r s /\ uint_from_str_radix n s r = ErrV E_InputSize.
 Proof. exact parse_error_precedence_refuted. Qed.
@@ -139,6 +139,12 @@ Theorem C17_encode_limbs_spec : forall r rp, 2 <= r <= 36 -> params_good r rp ->
 Proof. exact encode_limbs_spec. Qed.
 Print Assumptions C17_encode_limbs_spec.
 
+(** the fuel of the model's large-divisor loop is never exhausted (it ends with fewer than 32 limbs, as in the source) *)
+Theorem C17_large_loop_fuel : forall fixed rp fuel act oi w, (length act <= fuel)%nat ->
+  (length (fst (fst (large_go fuel fixed rp act oi w))) < 32)%nat.
+Proof. exact large_go_fuel. Qed.
+Print Assumptions C17_large_loop_fuel.
+
 Theorem C17_format_pow2_correct : forall fixed r limbs,
   2 <= r <= 36 -> is_power_of_two r = true -> wf limbs -> limbs <> [] ->
   radix_encode_limbs_to_string fixed r limbs = Some (numeral r (eval limbs)).
@@ -162,7 +168,7 @@ Theorem C17_format_unsupported_radix_panics : forall fixed r limbs, r < 2 \/ 36 
 Proof. exact format_unsupported_radix_panics. Qed.
 Print Assumptions C17_format_unsupported_radix_panics.
 
-(** finding F25: the code before the repair formats a 14-limb value wrongly in radix 31 *)
+(** finding F30: the code before the repair formats a 14-limb value wrongly in radix 31 *)
 Theorem C17_format_original_refuted :
   exists r limbs, 2 <= r <= 36 /\ wf limbs /\ limbs <> [] /\
     radix_encode_limbs_to_string false r limbs <> Some (numeral r (eval limbs)) /\
@@ -184,9 +190,9 @@ Theorem C17_boxed_parse_format : forall r ls, 2 <= r <= 36 -> wf ls -> ls <> [] 
 Proof. exact boxed_parse_format. Qed.
 Print Assumptions C17_boxed_parse_format.
 
-(** * The two op tables agree wherever the specification is defined, except the F26 class *)
+(** * The two op tables agree wherever the specification is defined, except the F31 class *)
 Theorem C17_tables_agree : forall dbg a k, In k radix_keys -> S17 k dbg a <> Unsupported ->
-  M17 k dbg a = S17 k dbg a \/ f26_class k dbg a.
+  M17 k dbg a = S17 k dbg a \/ f31_class k dbg a.
 Proof. exact tables_agree_radix. Qed.
 Print Assumptions C17_tables_agree.
 
